@@ -10,8 +10,13 @@ def strip_generics(path):
     i = 0
     n = len(path)
     while i < n:
-        if path[i:i + 3] == '::<' and not path[i + 3:].startswith('impl '):
+        if path[i:i + 3] == '::<':
             j = find_matching(path, i + 2)
+            if path[i + 3:].startswith('impl ') and path[j + 1:j + 3] == '::':
+                # `core::str::<impl str>::trim`: an impl segment, not a generic argument list
+                out.append(path[i:j + 1])
+                i = j + 1
+                continue
             i = j + 1
             continue
         out.append(path[i])
